@@ -367,11 +367,10 @@ def run_table(rep, w, tier, pid, replay=None):
         cw = [e for e in reqs if e["x"].get("hdr") == "If-Match"]
         if cw:
             rep.sample({k: cw[0][k] for k in ("method", "path", "status", "etag", "x")})
+    rep.cov["current_tag_refused_(counted_only)"] = len(v.raw.prints("TRACE-SOFT"))
     for (line, nb, clause) in v.bads:
         e = events[line - 1]
-        if clause.startswith("N18_"):
-            rep.cov["current_tag_refused_(not_a_violation)"] = rep.cov.get("current_tag_refused_(not_a_violation)", 0) + 1
-        elif clause.startswith(PREFIX[pid]):
+        if clause.startswith(PREFIX[pid]):
             b = behs[nb - 1] if 0 < nb <= len(behs) else None
             rep.violation("%s at line %d (behaviour '%s'): %s" % (clause, line, b["name"] if b else "", json.dumps({k: e.get(k) for k in ("ev", "name", "method", "path", "status", "statuses", "conflicts", "partial", "leaks", "x", "how", "body") if e.get(k) not in (None, "", [])})[:600]),
                           {"http_behaviours": [b] if b else [], "meta": {k: meta[k] for k in meta if b and any(len(s) > 1 and s[1] == k for s in b["steps"])}})
